@@ -271,7 +271,7 @@ func TestVerifC05(t *testing.T) {
 	defer res.Guard()
 	base, cleanup := vrep.Scratch("c05")
 	defer cleanup()
-	res.Rule = "(1) every single (quick) / pair (thorough) of non-default answers of the file-system and mmap calls made by open/Add/growth/rotation, enumerated by DFS over fault choice points; (2) every single (and for three bases every pair) 32-bit field overwrite of valid files at rest, then used by the real process under a step budget; (3) a menu of initial directory states. Classes: distinct end states (fault leg), oracle classes (damage leg); oracles on every damaged file: no panic / fault / budget overrun, no descriptor or mapping left (/proc/self/fd, /proc/self/maps), untouched counters neither changed nor lost; plus multi-page files cut to 7 lengths and a file grown sparsely beyond 4 GiB"
+	res.Rule = "(1) every single (quick) / pair (thorough) of non-default answers of the file-system and mmap calls made by open/Add/growth/rotation, enumerated by DFS over fault choice points; (2) every single (and for three bases every pair) 32-bit field overwrite of valid files at rest, then used by the real process under a step budget; (3) a menu of initial directory states. Classes: distinct end states (fault leg), oracle classes (damage leg); oracles on every damaged file: no panic / fault / budget overrun, no descriptor or mapping left (/proc/self/fd, /proc/self/maps), untouched counters neither changed nor lost; plus chains of 64..1100 records of one bucket closed into a cycle, multi-page files cut to 7 lengths and a file grown sparsely beyond 4 GiB"
 	res.Assumptions = []string{"faults are injected at the os / mmap call boundary of internal/counter and internal/telemetry", "truncation of a mapped file by a foreign program is outside the property"}
 	if p.Replay != "" {
 		zzvReplay(p.Replay, func(name string) *sched.Scenario { return zzvC05FaultScenario(base) })
@@ -448,6 +448,33 @@ func TestVerifC05(t *testing.T) {
 				break
 			}
 		}
+	}
+	// Long chains closed into a cycle: n records of one bucket, the last record of the chain pointing back to
+	// its head (cycle lengths around the number of buckets and well beyond it); looking up a name of that
+	// bucket that is not stored has to end.
+	{
+		long := zzvCollideN(1102)
+		long = append(append([]string{}, long[:6]...), long[7:]...) // (the 7th name is the one the process creates late)
+		for _, n := range []int{64, 511, 512, 513, 700, 1100} {
+			w := ref.NewCFWriter(zzvC10Meta())
+			var offs []uint32
+			baseNames = map[string]bool{}
+			for i, name := range long[:n] {
+				offs = append(offs, w.Add(name, uint64(10+i)))
+				baseNames[name] = true
+			}
+			zzvC05TableEnd = w.HdrLen + 4 + 4*ref.CFBuckets
+			zzvC05TrueLimit = binary.LittleEndian.Uint32(w.Data[w.HdrLen:])
+			use = []string{long[0], long[n-1], long[1100], "fresh"} // the chain's tail, its head, a new name of the bucket, another bucket
+			checkRest(fmt.Sprintf("R:long-chain-%d undamaged", n), w.Bytes())
+			d := w.Bytes()
+			binary.LittleEndian.PutUint32(d[offs[0]+12:], offs[n-1])
+			checkRest(fmt.Sprintf("R:long-chain-%d rec0.next=head (cycle of %d)", n, n), d)
+			d = w.Bytes()
+			binary.LittleEndian.PutUint32(d[offs[0]+12:], offs[n/2])
+			checkRest(fmt.Sprintf("R:long-chain-%d rec0.next=middle (cycle of %d)", n, n/2+1), d)
+		}
+		use = useDefault
 	}
 	// Files of odd sizes / wrong prefix / wrong metadata.
 	baseNames = map[string]bool{k1: true}
